@@ -5,7 +5,7 @@ From Coq Require Import String.
 From Coq Require Import List NArith Bool.
 From Wpull Require Import Lib.Decimal Lib.FsModel Model.Warc Model.WarcText
   Proofs.WarcParse Proofs.WarcSteps Proofs.WarcInv Proofs.WarcLife Proofs.WarcSess Proofs.WarcThms Proofs.WarcSniff
-  Proofs.WarcToy.
+  Proofs.WarcToy Proofs.WarcFieldSpec.
 Import ListNotations.
 Open Scope N_scope.
 
@@ -94,6 +94,41 @@ Theorem C07_status_mime_partial :
        dec code).
 Proof. exact sniff_spec. Qed.
 Print Assumptions C07_status_mime_partial.
+
+(* The same clause with the field lines read by an INDEPENDENT grammar instead of the model of NameValueRecord.parse:
+   when every field line is  name ":" OWS value OWS [CR] LF  (RFC 7230 section 3.2 without obsolete folding: [fline_ok] -
+   name non-empty, printable ASCII without colon; value without CR/LF and not beginning or ending with white space; OWS
+   made of SP / HT), the MIME type written to the CDX is the type/subtype at the start of the value of the FIRST line whose
+   name is "Content-Type" up to ASCII letter case ([first_value], a four-line recursive function over the parsed lines) and
+   '-' when no line has that name; the status is the code of the final status line.  What the partial statement left to
+   the parser model is here a consequence: line splitting, trimming, unfolding and str.title() name normalisation of the
+   model are proved to compute exactly that.  Folded (obs-fold) headers stay with C07_status_mime_partial. *)
+Theorem C07_status_mime_grammar :
+  forall (pres : list (bytes * list bytes * bytes)) sl (fs : list fline) b code body,
+    Forall interim_block pres -> line_ok sl -> Forall fline_ok fs -> blank_ok b ->
+    parse_status_code sl = Some code -> is_interim code = false ->
+    sniff (concat (map block_bytes pres) ++ hblock sl (map fl_raw fs) b ++ body)
+    = (match parse_mimetype (match first_value s_content_type fs with Some v => v | None => [] end) with
+       | Some m => m | None => dash end,
+       dec code).
+Proof. exact sniff_spec_grammar. Qed.
+Print Assumptions C07_status_mime_grammar.
+
+(* non-vacuity: "Server: x", "content-TYPE: \t image/svg+xml; charset=utf-8  " (CR LF), "Content-Type: text/plain" (LF only):
+   the first of the two Content-Type lines decides, whatever its letter case *)
+Example C07_status_mime_grammar_nonvacuous :
+  let sl := bs "HTTP/1.1 200 OK" ++ [13] in
+  let fs := [ {| f_name := bs "Server"; f_ows1 := [32]; f_value := bs "x"; f_ows2 := []; f_cr := true |};
+              {| f_name := bs "content-TYPE"; f_ows1 := [32; 9; 32]; f_value := bs "image/svg+xml; charset=utf-8";
+                 f_ows2 := [32; 32]; f_cr := true |};
+              {| f_name := bs "Content-Type"; f_ows1 := []; f_value := bs "text/plain"; f_ows2 := []; f_cr := false |} ] in
+  Forall fline_ok fs /\ line_ok sl /\ first_value s_content_type fs = Some (bs "image/svg+xml; charset=utf-8")
+  /\ sniff (hblock sl (map fl_raw fs) [13; 10] ++ bs "payload") = (bs "image/svg+xml", bs "200").
+Proof.
+  cbv zeta. split; [|split; [|split]]; try (vm_compute; reflexivity).
+  - repeat (constructor; [unfold fline_ok, trimmed; cbn; repeat split; try reflexivity; discriminate|]). constructor.
+  - split; [reflexivity|split; discriminate].
+Qed.
 
 (* ... where a status line 'HTTP/' digits '.' digits, blanks, three digits, anything
    has the status code those three digits spell. *)
